@@ -7,6 +7,7 @@ import (
 	"sort"
 	"sync"
 	"testing"
+	"testing/synctest"
 	"time"
 
 	"github.com/gotd/td/telegram/downloader"
@@ -81,6 +82,10 @@ type plainServer struct {
 	attempts   map[int64]int
 	reqs       []dlReq
 	violations []string
+	// cancelAt > 0: the caller's context is cancelled when the cancelAt-th request arrives
+	cancelAt int
+	cancel   func()
+	seen     int
 }
 
 func (s *plainServer) bad(format string, a ...any) {
@@ -95,6 +100,10 @@ func (s *plainServer) UploadGetFile(ctx context.Context, r *tg.UploadGetFileRequ
 	s.mu.Lock()
 	attempt := s.attempts[r.Offset]
 	s.attempts[r.Offset] = attempt + 1
+	s.seen++
+	if s.cancelAt > 0 && s.seen == s.cancelAt {
+		s.cancel()
+	}
 	s.mu.Unlock()
 	if r.Limit != s.part || r.Offset < 0 || r.Offset%int64(s.part) != 0 {
 		s.bad("getFile offset=%d limit=%d is off the part grid (part size %d)", r.Offset, r.Limit, s.part)
@@ -234,6 +243,12 @@ type dlCfg struct {
 	BgRate    uint64
 	BgSeed    uint64
 	LatSpread int
+	// Prior: the Downloader (and its buffer pool) has been used before, for
+	// another file: "done" = that download completed, "cancelled" = its
+	// context was cancelled at its PriorCancelAt-th request.
+	Prior         string
+	PriorSize     int64
+	PriorCancelAt int
 }
 
 func (c dlCfg) String() string {
@@ -241,7 +256,11 @@ func (c dlCfg) String() string {
 	if c.Stream {
 		mode = "stream"
 	}
-	return fmt.Sprintf("size=%d part=%d thr=%d %s type=%d faults=%v bg=%d/%x lat=%d", c.Size, c.Part, c.Threads, mode, c.TypeIdx, c.Faults, c.BgRate, c.BgSeed, c.LatSpread)
+	prior := ""
+	if c.Prior != "" {
+		prior = fmt.Sprintf(" prior=%s/%d/%d", c.Prior, c.PriorSize, c.PriorCancelAt)
+	}
+	return fmt.Sprintf("size=%d part=%d thr=%d %s type=%d faults=%v bg=%d/%x lat=%d%s", c.Size, c.Part, c.Threads, mode, c.TypeIdx, c.Faults, c.BgRate, c.BgSeed, c.LatSpread, prior)
 }
 
 var dlTypes = []tg.StorageFileTypeClass{
@@ -268,7 +287,40 @@ func runDownload(c dlCfg) (dlOutcome, string) {
 	for _, f := range c.Faults {
 		srv.faults[[2]int{f.Chunk, f.Attempt}] = f
 	}
-	b := downloader.NewDownloader().WithPartSize(c.Part).Download(srv, loc).WithThreads(c.Threads)
+	d := downloader.NewDownloader().WithPartSize(c.Part)
+	if c.Prior != "" {
+		loc2 := &tg.InputDocumentFileLocation{ID: 11, AccessHash: 21, FileReference: []byte{4, 5}}
+		pseed := c.Seed ^ 0x5bd1e995a5a5a5a5
+		psrv := &plainServer{seed: pseed, size: c.PriorSize, part: c.Part, typ: dlTypes[0], loc: loc2, faults: map[[2]int]dlFault{}, attempts: map[int64]int{}}
+		pctx, cancel := context.WithCancel(context.Background())
+		if c.Prior == "cancelled" {
+			psrv.cancelAt, psrv.cancel = max(c.PriorCancelAt, 1), cancel
+		}
+		pb := d.Download(psrv, loc2).WithThreads(c.Threads)
+		var perr error
+		var pbad string
+		if c.Stream {
+			w := &seqWriter{seed: pseed}
+			_, perr = pb.Stream(pctx, w)
+			pbad = w.bad
+		} else {
+			w := &sparseWriter{seed: pseed}
+			_, perr = pb.Parallel(pctx, w)
+			pbad = w.bad
+		}
+		cancel()
+		synctest.Wait()
+		if pbad != "" {
+			return o, "prior download on the same Downloader: " + pbad
+		}
+		if len(psrv.violations) > 0 {
+			return o, "prior download on the same Downloader: " + psrv.violations[0]
+		}
+		if c.Prior == "done" && perr != nil {
+			return o, fmt.Sprintf("prior download on the same Downloader failed without any fault: %v", perr)
+		}
+	}
+	b := d.Download(srv, loc).WithThreads(c.Threads)
 	var typ tg.StorageFileTypeClass
 	var err error
 	var sw *seqWriter
@@ -359,6 +411,16 @@ func genDlCfg(t *rapid.T) dlCfg {
 	}
 	c.BgSeed = rapid.Uint64().Draw(t, "bgSeed")
 	c.LatSpread = rapid.SampledFrom([]int{0, 5, 50, 3000}).Draw(t, "latSpread")
+	// the Downloader has a history in a third of the cases
+	switch rapid.SampledFrom([]string{"", "", "", "", "done", "cancelled"}).Draw(t, "prior") {
+	case "done":
+		c.Prior = "done"
+		c.PriorSize = int64(rapid.IntRange(1, (maxK+2)*c.Part).Draw(t, "priorSize"))
+	case "cancelled":
+		c.Prior = "cancelled"
+		c.PriorSize = int64(rapid.IntRange(c.Part, (maxK+2)*c.Part).Draw(t, "priorSize"))
+		c.PriorCancelAt = rapid.IntRange(1, int(ceilDiv(c.PriorSize, int64(c.Part)))+1).Draw(t, "priorCancelAt")
+	}
 	return c
 }
 
@@ -402,6 +464,9 @@ func testC33(t *testing.T, name string) {
 			}
 			if c.LatSpread > 0 && multi {
 				cl = append(cl, "scrambled-latency")
+			}
+			if c.Prior != "" {
+				cl = append(cl, "downloader-used-before="+c.Prior)
 			}
 			st.Case(c.String(), nontrivial, c.String(), cl...)
 		})
